@@ -671,6 +671,34 @@ def store_pipeline(prop, W, scen, replay=None, assumptions=()):
     return v, index, trace
 
 
+def redis_pairs(W, cap):
+    """RedisStore.tla at Redis-command granularity: every schedule of two operations by two replicas, replayed with miniredis' command hook as gate."""
+    ops = ["SetTok", "SetAuth", "GetTok", "GetAuth", "ClearAuth", "Remove"]
+    scen = []
+    for a in ops:
+        for b in ops:
+            if ops.index(b) < ops.index(a):
+                continue   # the pair (b, a) is the same set of schedules with the clients renamed
+            for st in ("absent", "pending", "tokens"):
+                cfg = cfg_text("Spec", dict(OpA='"%s"' % a, OpB='"%s"' % b, Start='"%s"' % st, Export="TRUE"), ["PrintSchedule"])
+                out, viol = W.tlc_exhaustive("RedisStore", cfg, "redis-%s-%s-%s" % (a, b, st), workers=1, timeout=600)
+                ms = W.scenarios_from(out)
+                ms = sample(W, ms, cap)
+                for i, m in enumerate(ms):
+                    m["id"] = "redispair/%s-%s/%s/%d" % (a, b, st, i)
+                scen += ms
+    trace = W.drive("TestRedisPair", scen, "redispair", timeout=1800)
+    v = W.validate(trace, "redispair", module="RedisPairTrace")
+    if v["fired"].get("scenarios", 0) != len(scen):
+        raise Infra("RedisPairTrace judged %s schedules, driver ran %d" % (v["fired"].get("scenarios"), len(scen)))
+    torn = v.get("torn") or {}
+    if torn:
+        log("[observation] outcomes of two concurrent Redis-store operations that no sequential order explains (outside the listed properties): " +
+            ", ".join("%s x%d" % kv for kv in sorted(torn.items())))
+    v["index"] = {m["id"]: m for m in scen}
+    return v, len(scen)
+
+
 def c12(W, replay=None):
     W.build()
     scen = [] if replay else store_scenarios(W, 600) + store_random(W, 1500 if W.tier == "thorough" else 150, 80)
@@ -680,6 +708,9 @@ def c12(W, replay=None):
         lv = linearizability(W, 3000 if W.tier == "thorough" else 300)
         index.update(lv.pop("index"))
         vs.append(lv)
+        rv, nr = redis_pairs(W, 400 if W.tier == "thorough" else 25)
+        index.update(rv.pop("index"))
+        vs.append(rv)
     return judge("C12", W, vs, index, traces=len(scen), samples=[{"scenario": scen[0], "recorded_events": sample_events(trace, maxev=30)}],
                  assumptions=["results and the projected real state (probe) of the touched id are logged after every operation; miniredis stands in for Redis",
                               "the three named deviations of DESIGN.md 4.1 are allowed (ClearAbsentFails, ReadNothingMayNotTouch, BoundaryEither)"])
